@@ -107,6 +107,52 @@ def main():
 
     docs = spec['docs']
     n = spec['nthreads']
+    if spec['mode'] == 'reentrant':
+        # a parse that starts while another parse of the SAME thread is in progress (the way a finalizer, a signal handler or
+        # a tracing hook would start one): the N-th entry into a pydbml function during the outer parse triggers the inner one
+        NEST = 5
+        mon.use_tool_id(NEST, 'pv-nest')
+        st = {'n': 0, 'busy': False, 'inner': None, 'armed': False}
+        at = spec.get('at', 40)
+
+        def nest(code, off):
+            if st['armed'] and not st['busy'] and code.co_filename.startswith(pkg):
+                st['n'] += 1
+                if st['n'] == at:
+                    st['busy'] = True
+                    try:
+                        st['inner'] = outcome(docs[1]['text'], docs[1]['props'])
+                    finally:
+                        st['busy'] = False
+            return None
+        mon.register_callback(NEST, mon.events.PY_START, nest)
+        mon.set_events(NEST, mon.events.PY_START)
+        if spec.get('warm'):
+            outcome(docs[0]['text'], docs[0]['props'])
+        res = {}
+
+        def outer():
+            st['armed'] = True
+            res['outer'] = outcome(docs[0]['text'], docs[0]['props'])
+            st['armed'] = False
+        th = threading.Thread(target=outer)
+        th.start()
+        th.join(60)
+        stuck = False
+        if th.is_alive():
+            fr = sys._current_frames().get(th.ident)
+            w0 = (id(fr.f_code), fr.f_lineno, fr.f_lasti) if fr else None
+            time.sleep(5)
+            fr = sys._current_frames().get(th.ident)
+            stuck = th.is_alive() and fr is not None and (id(fr.f_code), fr.f_lineno, fr.f_lasti) == w0
+            if stuck:
+                print(json.dumps({'reentrant': {'stuck': True, 'entries': st['n']}}))
+                sys.stdout.flush()
+                os._exit(0)
+        mon.set_events(NEST, 0)
+        seq = [outcome(d['text'], d['props']) for d in docs[:2]]
+        print(json.dumps({'reentrant': {'stuck': False, 'outer': res.get('outer'), 'inner': st['inner'], 'seq': seq, 'entries': st['n'], 'alive': th.is_alive()}}))
+        return
     if spec['mode'] == 'steady':
         outcome(docs[0]['text'], docs[0]['props'])
     results = []
